@@ -332,6 +332,11 @@ builtin_exec(spif_charptr_t param)
     fd = spiftool_temp_file(OutFile, sizeof(OutFile));
     if ((fd < 0) || fchmod(fd, (S_IRUSR | S_IWUSR | S_IRGRP | S_IROTH))) {
         libast_print_error("Unable to create unique temporary file for \"%s\" -- %s\n", param, strerror(errno));
+        if (fd >= 0) {
+            close(fd);
+            remove((char *) OutFile);
+        }
+        FREE(Command);
         return ((spif_charptr_t) NULL);
     }
 
@@ -339,6 +344,9 @@ builtin_exec(spif_charptr_t param)
     if (maxlen > CONFIG_BUFF) {
         libast_print_error("Parse error in file %s, line %lu:  Cannot execute command, line too long\n",
                            file_peek_path(), file_peek_line());
+        close(fd);
+        remove((char *) OutFile);
+        FREE(Command);
         return ((spif_charptr_t) NULL);
     }
     strcpy((char *) Command, (char *) param);
